@@ -35,7 +35,7 @@ package participle
 //@   ensures result.caseInsensitive == p.caseInsensitive && result.allowTrailing == p.allowTrailing && result.trace == p.trace && result.depth == p.depth
 //@   ensures result.firstMatch == p.firstMatch
 
-//@ func (*parseContext).Defer [C02 C01]
+//@ func (*parseContext).Defer [C02 C01 C17]
 //@   frame-tags C09
 //@   modifies p.apply
 //@   ensures len(p.apply) == len(old(p.apply)) + 1 && forall(k, 0, len(old(p.apply)), p.apply[k] == old(p.apply[k]))
@@ -89,7 +89,7 @@ package participle
 //@   modifies p.apply, p.PeekingLexer, p.deepestError, p.deepestErrorDepth, p.firstMatch
 //@   ensures result ==> p.firstMatch == ite(old(p.firstMatch) < 0, branch.firstMatch, old(p.firstMatch))
 //@   ensures !result ==> p.firstMatch == old(p.firstMatch)
-//@   ensures @threshold result == (p.lookahead >= 0 && branch.cursor - old(p.cursor) > p.lookahead)
+//@   ensures @threshold result == (p.lookahead >= 0 && branch.cursor - old(p.cursor) > p.lookahead) [C13 C01 C02 C11 C10]
 //@   ensures result ==> p.PeekingLexer == branch.PeekingLexer && len(p.apply) == len(old(p.apply)) + len(branch.apply) && (p.apply == old(p.apply) || fresh(p.apply))
 //@   ensures result ==> forall(k, 0, len(old(p.apply)), p.apply[k] == old(p.apply[k])) && forall(k, 0, len(branch.apply), p.apply[len(old(p.apply)) + k] == branch.apply[k])
 //@   ensures !result ==> p.PeekingLexer == old(p.PeekingLexer) && p.apply == old(p.apply)
@@ -300,6 +300,11 @@ package participle
 //@   loop 1 invariant -1 <= rangeindex && rangeindex < len(d.nodes) && pcInv(ctx)
 //@   loop 1 invariant ctx.PeekingLexer == old(ctx.PeekingLexer) && ctx.apply == old(ctx.apply) && ctx.firstMatch == old(ctx.firstMatch)
 //@   loop 1 invariant errOK(firstError) && errOK(ctx.deepestError)
+// An alternative that failed is passed over only if it had consumed no more than the lookahead (C13, C01): be / bc are
+// the error and the cursor the latest alternative ended with.
+//@   let be error = result1 after call node.Parse#1 default nil
+//@   let bc int = arg1.cursor after call node.Parse#1 default 0
+//@   loop 1 invariant @abandon be != nil && ctx.lookahead >= 0 ==> bc - ctx.cursor <= ctx.lookahead [C13 C01]
 //@   loop 1 decreases len(d.nodes) - rangeindex
 //@   ensures err == nil && out == nil ==> ctx.PeekingLexer == old(ctx.PeekingLexer) && ctx.apply == old(ctx.apply)
 
@@ -309,6 +314,19 @@ package participle
 //@   frame-tags C09
 //@   implements node.Parse
 //@   ensures g.mode == groupMatchNonEmpty && err == nil ==> ctx.rawCursor > old(ctx.rawCursor) && len(out) > 0 [C01]
+// ( e ) and ( e )! run e on the caller's own context, so that a committed failure inside e shows in it (C13);
+// an iteration of ? * + that failed ends the repetition only if it had consumed no more than the lookahead.
+//@   let pa1 *parseContext = arg1 after call node.Parse#1
+//@   let pa2 *parseContext = arg1 after call node.Parse#2
+//@   let pa3 *parseContext = arg1 after call node.Parse#3
+//@   ensures @onCtx g.mode == groupMatchNonEmpty || g.mode == groupMatchOnce ==> pa1 == ctx || pa2 == ctx || pa3 == ctx [C13 C01]
+//@   let ge1 error = result1 after call node.Parse#1 default nil
+//@   let ge2 error = result1 after call node.Parse#2 default nil
+//@   let ge3 error = result1 after call node.Parse#3 default nil
+//@   let gc1 int = arg1.cursor after call node.Parse#1 default 0
+//@   let gc2 int = arg1.cursor after call node.Parse#2 default 0
+//@   let gc3 int = arg1.cursor after call node.Parse#3 default 0
+//@   after loop 1: assert ctx.lookahead >= 0 ==> (ge1 != nil ==> gc1 - ctx.cursor <= ctx.lookahead) && (ge2 != nil ==> gc2 - ctx.cursor <= ctx.lookahead) && (ge3 != nil ==> gc3 - ctx.cursor <= ctx.lookahead) [C13 C01]
 //@   use wfGroup(g) at entry
 //@   loop 1 invariant 0 <= matches && g.expr != nil && wf(g.expr) && errOK(ctx.deepestError)
 //@   loop 1 invariant ctx.tokens == old(ctx.tokens) && ctx.elide == old(ctx.elide)
@@ -702,7 +720,7 @@ package participle
 
 // The combined mapper built by Build: mappers registered for all tokens first, then those registered
 // for the token's own type, each applied once, in registration order, stopping at the first error.
-//@ func Build$1 [C18]
+//@ func Build$1 [C18 C15]
 //@   frame-tags C09
 //@   requires @assumed forall(k, 0, len(mappers[t.Type]), mappers[t.Type][k] != nil) && forall(k, 0, len(mappers[lexer.EOF]), mappers[lexer.EOF][k] != nil)
 //@   loop 1 invariant -1 <= rangeindex && rangeindex < len(combined)
